@@ -58,7 +58,7 @@ func TestVerifBounded_C03(t *testing.T) {
 		// defPos: -1 none, else index of the default among the n entries
 		for defPos := -1; defPos < n; defPos++ {
 			for mask := 1; mask < 1<<n; mask++ { // mask 0: no entry has a body; such a switch is a no-op and is left out of the output altogether
-				for wrap := 0; wrap < 3; wrap++ { // 0: plain, 1: followed by a statement, 2: inside a loop, body with break
+				for wrap := 0; wrap < 4; wrap++ { // 0: plain, 1: followed by a statement, 2: inside a loop, bodies ending in break, 3: followed by a statement, even bodies are a lone break
 					hasBody := make([]bool, n)
 					isDefault := make([]bool, n)
 					var sb strings.Builder
@@ -76,6 +76,8 @@ func TestVerifBounded_C03(t *testing.T) {
 						if hasBody[k] {
 							if wrap == 2 && k%2 == 0 {
 								sb.WriteString(fmt.Sprintf(" b%d\n break\n", k))
+							} else if wrap == 3 && k%2 == 0 {
+								sb.WriteString(" break\n")
 							} else {
 								sb.WriteString(fmt.Sprintf(" b%d\n", k))
 							}
@@ -88,7 +90,7 @@ func TestVerifBounded_C03(t *testing.T) {
 					switch wrap {
 					case 0:
 						src = "script S { " + sb.String() + " }"
-					case 1:
+					case 1, 3:
 						src = "script S { pre\n " + sb.String() + " after\n }"
 					default:
 						src = "script S { while (flag(F)) { " + sb.String() + " tail\n } done\n }"
